@@ -214,6 +214,11 @@ class EnvSim:
         # the environment was reset by its constructor; reset again through
         # the public API to obtain the initial observation
         self.init_obs = None
+        try:
+            self.ctor_last_obs = np.array(self.env.last_obs.numpy(),
+                                          copy=True)
+        except Exception:
+            self.ctor_last_obs = None
         self._do_reset(first=True)
         # optional second live environment with the same vector layout but
         # other host configurations ('foreign_activity' inside one run)
@@ -250,6 +255,36 @@ class EnvSim:
                             " the environment", changed=[
                                 n for n, a, b in zip(names, before, after)
                                 if a != b], n=op.get("n", 600))
+
+    def _exec_marathon(self, op):
+        """A very long episode (more than 2**15 steps) of one cheap action
+        in a scenario without step limit: the step-limit flag must never be
+        raised and the counter must keep counting."""
+        env = self.env
+        if self.cfg.step_limit is not None:
+            return
+        plain, obj = self.resolve(op)
+        if obj is None:
+            return
+        x = plain if self.table.flat else list(plain)
+        self._do_reset()
+        n = int(op.get("n", 33000))
+        self.counters.hit("fault.marathon_episode")
+        for i in range(n):
+            self.rnd.push([0.999, 0.999])
+            try:
+                out = env.step(x)
+            except Exception as e:
+                raise SutError("step", e)
+            if out[3] and "C06" in self.props:
+                raise Violation("C06.limit", "step-limit flag raised in a "
+                                "scenario without step limit", step=i + 1)
+        if env.steps != n and "C06" in self.props:
+            raise Violation("C06.limit", "env.steps != number of step() "
+                            "calls since the last reset", env_steps=env.steps,
+                            steps=n)
+        self.steps_total += n
+        self._do_reset()
 
     def _reconstruct(self):
         """Restart analogue: a new environment is built from the same
@@ -349,6 +384,16 @@ class EnvSim:
                      obs=np.asarray(out[0]).tobytes())
         if first:
             self.init_obs = np.array(out[0], copy=True)
+        self._scribble(out[0])
+
+    def _scribble(self, arr):
+        """The caller owns what reset()/step() returned: writing into it
+        (in-place normalisation, buffer reuse) must not affect the
+        environment."""
+        if self.seed % 4 == 0 and isinstance(arr, np.ndarray) and \
+                arr.flags.writeable:
+            arr[...] = 9.0
+            self.counters.hit("fault.caller_writes_into_returned_obs")
 
     def resolve(self, op):
         """-> (plain encoding, Action object)"""
@@ -400,6 +445,26 @@ class EnvSim:
             self.oracle.query(op)
         elif kind == "burst":
             self._exec_burst(op)
+        elif kind == "fork":
+            # the agent continues with copy.deepcopy(env); the original stays
+            # alive but is not stepped any more
+            import copy
+            try:
+                self._originals = getattr(self, "_originals", []) + [self.env]
+                self.env = copy.deepcopy(self.env)
+            except Exception as e:
+                raise SutError("deepcopy", e)
+            self.table = ActionTable(self.env, self.cfg)
+            self.__dict__.pop("_pre_cache", None)
+            self.states.clear()
+            self.state_sids.clear()
+            self.gstep_outputs.clear()
+            self.gstep_ops = []
+            self.oracle = oracles.Oracles(self)
+            self.cur_sid = self.keep_state(self.env.current_state)
+            self.counters.hit("fault.restart.deepcopy_fork")
+        elif kind == "marathon":
+            self._exec_marathon(op)
         elif kind == "epfreq":
             self.counters.hit("fault.unscripted_episodes")
             self.oracle.c07_episode_frequency(op)
@@ -514,6 +579,7 @@ class EnvSim:
                      reward=float(rec["reward"]), done=bool(rec["done"]),
                      trunc=bool(rec["trunc"]),
                      info=oracles._canon_info(rec["info"]))
+        self._scribble(rec["obs_out"])
 
     # ------------------------------------------------------------------
     # online workload generation
@@ -532,7 +598,14 @@ class EnvSim:
                 op = self._gen_reset(wl)
             else:
                 r = wl.random()
-                if "C07" in self.props and wl.random() < 0.003:
+                if "C06" in self.props and self.cfg.step_limit is None \
+                        and wl.random() < 0.0006:
+                    k = wl.choice(self.table.keys)
+                    op = {"op": "marathon", "a": [k[0], list(k[1]), k[2]],
+                          "n": 33000}
+                elif wl.random() < 0.004:
+                    op = {"op": "fork"}
+                elif "C07" in self.props and wl.random() < 0.003:
                     op = {"op": "epfreq", "pick": wl.randint(0, 50),
                           "n": 500, "seed_first": wl.choice(
                               [None, wl.randint(1, 10 ** 6)])}
@@ -811,6 +884,8 @@ def run_one(prop, tier, root, idx, extra):
     swarm = Swarm(core.stream(seed, "swarm"), props)
     if tier == "thorough":
         swarm.n_ops = swarm.n_ops * 3
+    if spec.get("family") == "long_chain":
+        swarm.n_ops = min(swarm.n_ops, 25)      # 130 subnets: keep it short
     res = {"idx": idx, "seed": seed}
     shadow = None
     if cfgr.random() < 0.25:
